@@ -949,9 +949,11 @@ def run(ck):
     pool.shutdown()
 
     # ---------------- verdicts
+    unclassified = 0
     for k in sorted(findings):
         key, desc, rep = findings[k]
         if key is None:
+            unclassified += 1
             same = lambda bad, desc=desc: any(kk is None and dd.get("problem") == desc.get("problem") for kk, dd in bad)
             try:
                 if rep["level"] == "cgio" and len(rep["ops"]) > 3:
@@ -993,7 +995,8 @@ def run(ck):
                     pass
         ck.finding(key, rep)
     unexplained = [c for c in corr_broken if not c.get("explained_by")]
-    if (broken or unexplained) and not ck.violations:
+    # (a keyed finding does not explain a difference between the table model and the tables; an unclassified violation may)
+    if (broken or unexplained) and not unclassified:
         ck.violation({"broken_obligations": broken, "broken_correspondence": unexplained[:3],
                       "note": "the Refcount model and the implementation differ (or an obligation no longer checks) although no explored session "
                               "left a descriptor, an HDF5 id, a handle-table slot or heap memory behind"}, nofail=True)
